@@ -12,15 +12,15 @@ TEXT = {
             "full"),
     "C02": ("Proved for every delivery list, all three framings and every header line limit a caller may set: C02_response_delivery_independent, C05_chunk_delivery_independent, C09_response_suffix_irrelevant, C04_prefix_never_rejected (the dependency's dangling-CR rule is shielded by repair F1c, which is part of the model).",
             "full"),
-    "C03": ("Proved: C03_accept_iff — for every URI implementation, limit triple and byte string the parser accepts a complete request with given fields after n bytes IFF the string is line CRLF header-block body tail with the line in the request-line grammar, the block accepted in full by the header parser, the body of the declared length, line and total within their limits (with C03_accept_complete / C03_accept_sound as the two halves). Further: soundness of acceptance for whole messages (C03_accept_sound: a completed parse implies request line, fully accepted header block, body framed by Content-Length, exact consumption and exactly extracted fields), request-line grammar in both directions (C03_request_line_sound / _complete), the six request-line rejection categories (C03_request_line_category), the prefix clause (C03_prefix_never_rejected, C03_accepted_prefix_not_rejected), the limit clauses (C08_*), digits-only Content-Length (C17). C03_verdict: the parser equals a straight-line decision list over the elements in order, with every rejection category as a corollary (C03_cat_line_too_long, _not_text, _request_line, _header, _content_length, C03_rejected_by_block_end) and C03_proper_prefix_more. Well-formedness of header fields is delegated to the header parser model (as the property delegates it to the message-header library).",
+    "C03": ("Proved: C03_accept_iff — for every URI implementation, limit triple and byte string the parser accepts a complete request with given fields after n bytes IFF the string is line CRLF header-block body tail with the line in the request-line grammar, the block accepted in full by the header parser, the body of the declared length, line and total within their limits (with C03_accept_complete / C03_accept_sound as the two halves). Further: soundness of acceptance for whole messages (C03_accept_sound: a completed parse implies request line, fully accepted header block, body framed by Content-Length, exact consumption and exactly extracted fields), request-line grammar in both directions (C03_request_line_sound / _complete), the six request-line rejection categories (C03_request_line_category), the prefix clause (C03_prefix_never_rejected, C03_accepted_prefix_not_rejected), the limit clauses (C08_*), digits-only Content-Length (C17). C03_verdict: the parser equals a straight-line decision list over the elements in order, with every rejection category as a corollary (C03_cat_line_too_long, _not_text, _request_line, _header, _content_length, C03_rejected_by_block_end) and C03_proper_prefix_more. Well-formedness of header fields is delegated to the header parser model (as the property delegates it to the message-header library). Framing of a request is a function of its Content-Length fields alone (C03_framing_only_content_length, C03_framing_other_fields).",
             "full; header-field well-formedness defined by the header parser model"),
-    "C04": ("Proved: C04_accept_iff — for every header line limit and byte string, completion after n bytes in a given state IFF status line in the grammar, header block accepted in full, then the body the headers select in the order Content-Length > chunked (grammar Sound of C05, state = de-chunk rewrite) > none (halves: C04_accept_complete_fixed/_chunked/_none and C04_accept_sound). Further: C04_accept_sound (status line, header block, framing precedence Content-Length > chunked > none, exact consumption, trailing data kept), C04_status_line_sound, C04_status_line_category, the four framing lemmas, C04_prefix_never_rejected, C17_status_code; C04_verdict: the parser equals a decision list; categories C04_cat_not_text, _status_line, _header, _content_length, _chunked and, for the chunk decoder from any state, C05_cat_size_not_text, _size_invalid, _terminator, _trailer; C04_proper_prefix_more.",
+    "C04": ("Proved: C04_accept_iff — for every header line limit and byte string, completion after n bytes in a given state IFF status line in the grammar, header block accepted in full, then the body the headers select in the order Content-Length > chunked (grammar Sound of C05, state = de-chunk rewrite) > none (halves: C04_accept_complete_fixed/_chunked/_none and C04_accept_sound). Further: C04_accept_sound (status line, header block, framing precedence Content-Length > chunked > none, exact consumption, trailing data kept), C04_status_line_sound, C04_status_line_category, the four framing lemmas, C04_prefix_never_rejected, C17_status_code; C04_verdict: the parser equals a decision list; categories C04_cat_not_text, _status_line, _header, _content_length, _chunked and, for the chunk decoder from any state, C05_cat_size_not_text, _size_invalid, _terminator, _trailer; C04_proper_prefix_more. Framing is a function of the Content-Length and Transfer-Encoding fields alone: C04_framing_only_framing_fields, C04_framing_insert_other (a field of any other name and value changes nothing), C04_framing_status_irrelevant.",
             "full; header-field well-formedness defined by the header parser model"),
     "C05": ("Proved: C05_complete_iff — the decoder completes after n bytes IFF those bytes are a chunked body of the grammar Sound (C05_sound_complete + C05_complete_only_if_wellformed). Also, in both directions for every byte string: C05_roundtrip / C05_roundtrip_parse (every chunk list with hex sizes in any case with leading zeros, ASCII extensions, well-formed trailer fields, any tail: exactly the payload, exactly the trailers, stops at the end) and C05_complete_only_if_wellformed (completion implies the chunked structure `Sound` and that the body is exactly the chunk-data ranges), C17_chunk_size, C05_chunk_delivery_independent.",
             "full (extensions restricted to ASCII text without CR: the implementation rejects non-UTF-8 size lines)"),
     "C06": ("Proved on the model in which every trapping operation of request.rs / response.rs / chunked_body.rs is explicit, for both build profiles and every delivery list: C06_request_no_crash, C06_response_no_crash (a run never ends in a panic). generate / decode_body / decode_body_as_text and the trap sites inside the dependencies are covered by observation only (supervised execution, both profiles). Known finding KF1 (rhymessage generate, limit < 2).",
             "partial: proof for the parsers' own arithmetic/indexing, exploration for the rest"),
-    "C07": ("Proved, for every limit configuration, every declared value and every delivery list to a fresh parser: what the parsers retain is bounded by what they consumed — method, header names and values, body, de-chunking buffer, trailer fields never exceed the few bytes of the initial state plus the input bytes consumed, which never exceed the bytes delivered (C07_request_retained_bounded / _vs_delivered, C07_response_retained_bounded, C07_response_payload_bounded / _vs_delivered, C07_chunk_retained_bounded from any state; generic Sys.run_size, Headers.parse_size); and for every parse call from every state each Vec::reserve the parsers issue asks for no more than the bytes presented to that call (C07_request_reserve_bounded, C07_chunk_reserve_bounded, C07_response_reserve_bounded). No declared length occurs in any bound. The growth policy of Vec / String inside std and the dependencies is measured with a counting allocator (largest single request <= 4 KiB + 8 x presented, live bytes <= 8 KiB + 16 x presented), also after errors and with limits changed between calls, not proved.",
+    "C07": ("Proved, for every limit configuration, every declared value and every delivery list to a fresh parser: what the parsers retain is bounded by what they consumed — method, header names and values, body, de-chunking buffer, trailer fields never exceed the few bytes of the initial state plus the input bytes consumed, which never exceed the bytes delivered (C07_request_retained_bounded / _vs_delivered, C07_response_retained_bounded, C07_response_payload_bounded / _vs_delivered, C07_chunk_retained_bounded from any state; generic Sys.run_size, Headers.parse_size); and for every parse call from every state each Vec::reserve the parsers issue asks for no more than the bytes presented to that call (C07_request_reserve_bounded, C07_chunk_reserve_bounded, C07_response_reserve_bounded). No declared length occurs in any bound. The growth policy of Vec / String inside std and the dependencies is measured with a counting allocator (largest single request <= 4 KiB + 8 x the bytes presented so far to that message, live bytes <= 8 KiB + 16 x the same), also after errors and with limits changed between calls, not proved.",
             "partial: proof for retained data and reservation logic, measurement for the allocator side"),
     "C08": ("Proved: C08_request_line_exact (+ _unterminated, _none), C08_header_line_exact (+ _none) for the first line of each field, C08_accept_within_max, C08_more_implies_within_max (a caller following the protocol never buffers more than the maximum). The implementation is also checked against an independent measurement of every element. Known finding KF2 (continuation lines are not measured by the dependency).",
             "full for request line, first header lines and total; known finding KF2"),
@@ -32,13 +32,13 @@ TEXT = {
             "full where the re-serialised header lines fit the line limit (folded lines: dependency finding KF4); requests under the URI law (dependency finding KF3 where it fails)"),
     "C12": ("Proved by header-list algebra for every original header list, every list of other codings and every trailer list: C12_content_length, C12_transfer_encoding, C12_no_trailer, C12_others; plus an independent post-condition checker on the implementation.",
             "full"),
-    "C13": ("Proved for every DEFLATE stream: canonical Huffman decoding is correct for every table of code lengths (decodeSym_canon), the symbol loop for any pair of code books (inflateCodes_book), dynamic block headers with any run-length coded tables (dynamicBlock_spec), stored blocks from any bit offset (storedBlock_spec), any sequence of stored / fixed / dynamic blocks (inflateBlocks_blocks), bare, in gzip (with any optional header fields: C13_gzip_bytes_opt) and in zlib, for byte strings with arbitrary padding bits (C13_inflateRaw_bytes, C13_gzip_bytes, C13_zlib_bytes, sniff_blocks), and at decode_body for every stack of codings each written by ANY conforming encoder (C13_decodeBody_every_encoder; a Deflater is any function to block sequences that respects the format and expands to the body). Non-vacuity against real zlib output: Hm/C13Example (kernel-evaluated) and the encoder-spec family of the check (every level / strategy / flush pattern: description satisfies Block.Ok, re-encodes bit for bit, expands to the data). Fidelity of the inflate model to flate2/miniz_oxide: correspondence.",
+    "C13": ("Proved for every DEFLATE stream: canonical Huffman decoding is correct for every table of code lengths (decodeSym_canon), the symbol loop for any pair of code books (inflateCodes_book), dynamic block headers with any run-length coded tables (dynamicBlock_spec), stored blocks from any bit offset (storedBlock_spec), any sequence of stored / fixed / dynamic blocks (inflateBlocks_blocks), bare, in gzip (with any optional header fields: C13_gzip_bytes_opt) and in zlib, for byte strings with arbitrary padding bits (C13_inflateRaw_bytes, C13_gzip_bytes, C13_zlib_bytes, sniff_blocks), and at decode_body for every stack of codings each written by ANY conforming encoder (C13_decodeBody_every_encoder; a Deflater is any function to block sequences that respects the format and expands to the body). Non-vacuity against real zlib output: Hm/C13Example (kernel-evaluated) and the encoder-spec family of the check (every level / strategy / flush pattern: description satisfies Block.Ok, re-encodes bit for bit, expands to the data). Fidelity of the inflate model to flate2/miniz_oxide: correspondence. The decoded content depends on the Content-Encoding fields alone (C13_decode_only_content_encoding, C13_decode_other_fields).",
             "full for the model of flate2 on single-member gzip, zlib and bare deflate; model fidelity by correspondence; gzip bodies of several members: known finding KF5"),
     "C14": ("Proved for arbitrary codec functions: C14_failure_atomic, C14_content_length, C14_content_encoding, C14_others_unchanged; instance with the modelled decoders C13_decodeBody_level0_stacks; independent post-condition checker on the implementation.",
             "full"),
-    "C15": ("Proved on the container/inflate model for all byte strings: truncation theorems at the entry points (C15_gunzip_truncated, C15_zlibDecode_truncated, C15_inflateRaw_truncated, and hypothesis-free for every level-0 stream), checks applied (C15_gzip_check, C15_zlib_check), altered trailers rejected (C15_gzip_field_altered, C15_zlib_field_altered), header checks (C15_gzip_signature, C15_zlib_header), lifted to decode_body for the gzip layer. Single-bit flips inside compressed data are checked on the implementation against the three allowed outcomes with an independent CRC-32 / Adler-32.",
+    "C15": ("Proved on the container/inflate model for all byte strings: truncation theorems at the entry points (C15_gunzip_truncated, C15_zlibDecode_truncated, C15_inflateRaw_truncated, and hypothesis-free for every level-0 stream), checks applied (C15_gzip_check, C15_zlib_check), altered trailers rejected (C15_gzip_field_altered, C15_zlib_field_altered), header checks (C15_gzip_signature, C15_zlib_header), lifted to decode_body for the gzip layer. Single-bit flips inside compressed data are checked on the implementation against the three allowed outcomes with an independent CRC-32 / Adler-32. Whether a body is refused does not depend on any field but Content-Encoding (C15_decode_insert_other).",
             "partial: theorems about the model of flate2; fidelity validated on valid streams, truncations and field edits; later members of a multi-member gzip body: known finding KF5"),
-    "C16": ("Proved: C16_some_only_if_text, C16_default_charset, C16_charset_decides, C16_charset_first_param and C16_charset_absent (which parameter decides, for every parameter list), C16_utf8_exact (against core's declarative IsValidUTF8), C16_latin1_total, C16_latin1_ascii, C16_latin1_no_replacement, kernel-evaluated label facts over the 228-row table, C18_charset_label_case. Legacy multi-byte decoders are not modelled (label resolution and absence of U+FFFD checked on the implementation).",
+    "C16": ("Proved: C16_some_only_if_text, C16_default_charset, C16_charset_decides, C16_charset_first_param and C16_charset_absent (which parameter decides, for every parameter list), C16_utf8_exact (against core's declarative IsValidUTF8), C16_latin1_total, C16_latin1_ascii, C16_latin1_no_replacement, kernel-evaluated label facts over the 228-row table, C18_charset_label_case. Legacy multi-byte decoders are not modelled (label resolution and absence of U+FFFD checked on the implementation). The text depends on the Content-Type fields alone (C16_text_only_content_type, C16_text_insert_other).",
             "full for UTF-8 and the default; legacy decoders by observation"),
     "C17": ("Proved on the exact model of Rust's integer parsers: C17_request_content_length, C17_chunk_size, C17_status_code (acceptance implies digits only); exhaustive strings over a 13-symbol alphabet in all five positions against the implementation.",
             "full"),
